@@ -479,6 +479,32 @@ def check_channels(run, cx, cfg):
         run.check(ok, 'frame.channels-iter', fn, cfg, 'len must be CHANNELS - next_idx', where=where(body))
 
 
+def check_native_add(run, facts, cfg):
+    """add_amp is `Signed + Signed` in the format's Signed companion: for the companions that are the repository's own
+    wrapper types (I24, I48) the `+` itself is repository code.  Decided with the C15 interval engine: for in-range
+    operands the result is in range and congruent to the exact sum (hence exact whenever the exact sum is in range,
+    in particular x + 0 == x), in the debug and in the release profile."""
+    from rules import C15
+    signed = set()
+    for i in facts.impls_of(SAMPLE):
+        items = {it['name']: it for it in i['items']}
+        sg = F.fmt_of_type(items['Signed']['ty']) if 'Signed' in items else None
+        if sg is not None:
+            signed.add(sg)
+    n = 0
+    for mod, name, bits, sgn in C15.TYPES:
+        if mod not in signed:
+            continue
+        tp = C15.tpath(mod, name)
+        adt = facts.adts.get(tp)
+        if not adt:
+            run.fail('sample.native-add', tp, cfg, 'wrapper type not found')
+            continue
+        rep = adt['variants'][0]['fields'][0]['ty']
+        n += C15.check_ops(run, facts, cfg, mod, name, bits, sgn, rep, only=('Add',), rule='sample.native-add')
+    run.floor('sample.native-add', 'wrapper Signed companions with their own Add (%s)' % cfg, n, 2)
+
+
 def run(run, tier, loadcfg):
     if tier == 'thorough':
         import witness
@@ -486,7 +512,9 @@ def run(run, tier, loadcfg):
     run.rule_text = 'one instance per (impl or function x rule x configuration); floors: 14 Sample impls, 15 Frame impls, 30 map/zip_map bodies'
     run.explanation = __doc__
     run.assumptions = ['core::array::from_fn calls its closure for 0..N in order; core array map is element-wise', 'numeric content of conversions is C01/C02']
-    for cfg in ['std-debug'] + (['nostd'] if tier == 'thorough' else []):
+    for cfg in ['std-debug', 'std-release']:
+        check_native_add(run, loadcfg(cfg), cfg)
+    for cfg in ['std-debug'] + (['nostd', 'std-release'] if tier == 'thorough' else []):
         fx_ = loadcfg(cfg, optional=(cfg == 'nostd'))
         if fx_ is None:
             continue
